@@ -28,6 +28,9 @@ pub enum Codec {
     LenPrefix,
     /// LenPrefix plus one end-of-stream frame produced by `decode_eof` from an empty buffer
     LenTrailer,
+    /// the same framing by a stateful decoder that consumes the 2-byte header as soon as it is
+    /// there (returning `Ok(None)` while it does so) and remembers the length
+    LenEager,
 }
 
 #[derive(Serialize, Deserialize, Clone, Debug)]
@@ -50,6 +53,9 @@ pub struct Config {
     /// C13: this many leading bytes of the stream are already in the read buffer at construction
     #[serde(default)]
     preload: usize,
+    /// C13: the Sink face (flush / close, nothing buffered) is polled in between reads
+    #[serde(default)]
+    sink_ops: bool,
 }
 
 #[derive(Serialize, Deserialize, Clone, Debug, PartialEq)]
@@ -325,6 +331,57 @@ impl Decoder for LenTrailer {
     }
 }
 
+#[derive(Debug, Clone, Copy, Default)]
+struct LenEager {
+    need: Option<usize>,
+}
+
+impl Decoder for LenEager {
+    type Item = Vec<u8>;
+    type Error = io::Error;
+
+    fn decode(&mut self, src: &mut BytesMut) -> Result<Option<Vec<u8>>, io::Error> {
+        if self.need.is_none() {
+            if src.len() < 2 {
+                return Ok(None);
+            }
+            let n = u16::from_be_bytes([src[0], src[1]]) as usize;
+            src.advance(2);
+            if n == POISON {
+                return Err(io::Error::new(io::ErrorKind::InvalidData, "poison length"));
+            }
+            self.need = Some(n);
+        }
+        let n = self.need.unwrap();
+        if src.len() < n {
+            return Ok(None);
+        }
+        self.need = None;
+        Ok(Some(src.split_to(n).to_vec()))
+    }
+
+    fn decode_eof(&mut self, src: &mut BytesMut) -> Result<Option<Vec<u8>>, io::Error> {
+        match self.decode(src)? {
+            Some(f) => Ok(Some(f)),
+            None if src.is_empty() && self.need.is_none() => Ok(None),
+            None => {
+                // a frame cut short by the end of the stream: what there is, marked
+                self.need = None;
+                let mut tail = src.split().to_vec();
+                tail.insert(0, b'~');
+                Ok(Some(tail))
+            }
+        }
+    }
+}
+
+impl Encoder<Bytes> for LenEager {
+    type Error = io::Error;
+    fn encode(&mut self, item: Bytes, dst: &mut BytesMut) -> Result<(), io::Error> {
+        LenPrefix.encode(item, dst)
+    }
+}
+
 impl Encoder<Bytes> for LenTrailer {
     type Error = io::Error;
     fn encode(&mut self, item: Bytes, dst: &mut BytesMut) -> Result<(), io::Error> {
@@ -375,7 +432,7 @@ fn gen_stream(cfg: &Config) -> Vec<u8> {
                 out.push((i as u8).wrapping_mul(31).wrapping_add(rng.below(3) as u8));
             }
         }
-        Codec::LenPrefix | Codec::LenTrailer => {
+        Codec::LenPrefix | Codec::LenTrailer | Codec::LenEager => {
             while out.len() < cfg.stream_len {
                 let n = if cfg.long {
                     *rng.pick(&[0usize, 1, 2, 100, 1021, 1022, 1023, 4000, 8189, 8190, 8191, 9000, 30000])
@@ -499,6 +556,7 @@ erased!(FLines, LinesCodec, LinesCodec::default(), |s: String| s.into_bytes(), |
 erased!(FBytes, BytesCodec, BytesCodec, |b: BytesMut| b.to_vec(), |v: Vec<u8>| Bytes::from(v), Bytes);
 erased!(FLen, LenPrefix, LenPrefix, |v: Vec<u8>| v, |v: Vec<u8>| Bytes::from(v), Bytes);
 erased!(FLenTr, LenTrailer, LenTrailer::default(), |v: Vec<u8>| v, |v: Vec<u8>| Bytes::from(v), Bytes);
+erased!(FLenEager, LenEager, LenEager::default(), |v: Vec<u8>| v, |v: Vec<u8>| Bytes::from(v), Bytes);
 
 fn make(codec: &Codec) -> Box<dyn ErasedFramed> {
     make_with(codec, &[])
@@ -522,6 +580,7 @@ fn make_with(codec: &Codec, pre: &[u8]) -> Box<dyn ErasedFramed> {
         Codec::Bytes => Box::new(FBytes(mk!(BytesCodec))),
         Codec::LenPrefix => Box::new(FLen(mk!(LenPrefix))),
         Codec::LenTrailer => Box::new(FLenTr(mk!(LenTrailer::default()))),
+        Codec::LenEager => Box::new(FLenEager(mk!(LenEager::default()))),
     }
 }
 
@@ -535,6 +594,7 @@ fn run_c13(cfg: &Config, ch: &mut Chooser<Action>, ctx: &mut RunCtx) -> Option<V
         Codec::Bytes => reference(BytesCodec, &stream, |b: BytesMut| b.to_vec()),
         Codec::LenPrefix => reference(LenPrefix, &stream, |v: Vec<u8>| v),
         Codec::LenTrailer => reference(LenTrailer::default(), &stream, |v: Vec<u8>| v),
+        Codec::LenEager => reference(LenEager::default(), &stream, |v: Vec<u8>| v),
     };
     // number of items that are complete once the first p bytes of the stream have been read
     let decodable = |p: usize| end_off.iter().filter(|e| **e <= p).count();
@@ -617,6 +677,10 @@ fn run_c13(cfg: &Config, ch: &mut Chooser<Action>, ctx: &mut RunCtx) -> Option<V
                 en.push((Action::Rebuild(how), 1));
             }
         }
+        if cfg.sink_ops && !draining {
+            en.push((Action::PollFlush, 1));
+            en.push((Action::PollClose, 1));
+        }
         let ended = got.last() == Some(&Item::End);
         if !ended || ended_polls < 2 {
             if !parked || task.woken() {
@@ -673,6 +737,14 @@ fn run_c13(cfg: &Config, ch: &mut Chooser<Action>, ctx: &mut RunCtx) -> Option<V
                 f.rebuild(how);
                 ctx.bump("probe.rebuilt_mid_stream");
                 ev!(ctx, "rebuild {how}");
+            }
+            Action::PollFlush | Action::PollClose => {
+                // the write half has nothing to do; whatever it does must leave the read half alone
+                let w = std::task::Waker::noop();
+                let mut cx = Context::from_waker(&w);
+                let r = if a == Action::PollFlush { f.poll_flush(&mut cx) } else { f.poll_close(&mut cx) };
+                ctx.bump("probe.sink_polled_between_reads");
+                ev!(ctx, "sink {} -> ready={}", if a == Action::PollFlush { "flush" } else { "close" }, r.is_ready());
             }
             Action::FeedErr => {
                 f.io().rq.push_back(ReadEv::Err(cfg.read_err_kind));
@@ -892,7 +964,7 @@ fn run_c14(cfg: &Config, ch: &mut Chooser<Action>, ctx: &mut RunCtx) -> Option<V
                 let item = item_bytes(cfg, size, sent);
                 let mut enc = BytesMut::new();
                 f.encode_ref(&item, &mut enc);
-                let refuse = size == REFUSED_SIZE && matches!(cfg.codec, Codec::LenPrefix | Codec::LenTrailer);
+                let refuse = size == REFUSED_SIZE && matches!(cfg.codec, Codec::LenPrefix | Codec::LenTrailer | Codec::LenEager);
                 let r = f.start_send(item);
                 ev!(ctx, "start_send {size} -> {}", r.is_ok());
                 if r.is_ok() == refuse {
@@ -1105,10 +1177,11 @@ impl Engine for IoSim {
     }
     fn gen_config(prop: &str, tier: Tier, rng: &mut Rng) -> Config {
         let long = rng.chance(1, if tier == Tier::Thorough { 6 } else { 12 });
-        let codec = match rng.below(5) {
+        let codec = match rng.below(6) {
             0 => Codec::Bytes,
             1 => Codec::LenPrefix,
             2 => Codec::LenTrailer,
+            3 => Codec::LenEager,
             _ => Codec::Lines,
         };
         Config {
@@ -1125,6 +1198,7 @@ impl Engine for IoSim {
             rebuild: rng.chance(1, 4),
             read_err_kind: rng.below(3) as u8,
             preload: if rng.chance(1, 6) { rng.range(1, 5) as usize } else { 0 },
+            sink_ops: rng.chance(1, 5),
         }
     }
     fn max_actions(_: &str, cfg: &Config) -> usize {
@@ -1156,7 +1230,7 @@ impl Engine for IoSim {
     fn describe(prop: &str) -> Describe {
         Describe {
             rule: if prop == "C13" {
-                "byte streams (0..64 bytes over an alphabet with the codec's delimiters / length prefixes incl. a poison length; long streams of 1-40 KiB with frames around the 1 KiB and 8 KiB marks and larger than 8 KiB) cut into read chunks by seeded Feed(n) actions, Pending wherever the stream is polled with nothing available, optional single read error (ConnectionReset / Interrupted / TimedOut: each must surface as an item), EOF, in a quarter of the runs the Framed is taken apart and rebuilt mid-stream (into_map_codec / into_map_io / into_parts+from_parts); items (frames and decode errors, decoding goes on behind an error) compared one by one with the same codec applied to the undivided stream (BytesCodec: concatenation), a stateful partner codec yields an end-of-stream frame from the empty buffer; whenever the stream returns Pending or the injected I/O error, every item complete in the bytes read before has been yielded; non-trivial = >=2 items and >=1 Pending read; distinct = distinct event-trace hash".into()
+                "byte streams (0..64 bytes over an alphabet with the codec's delimiters / length prefixes incl. a poison length; long streams of 1-40 KiB with frames around the 1 KiB and 8 KiB marks and larger than 8 KiB) cut into read chunks by seeded Feed(n) actions, Pending wherever the stream is polled with nothing available, optional single read error (ConnectionReset / Interrupted / TimedOut: each must surface as an item), EOF, in a quarter of the runs the Framed is taken apart and rebuilt mid-stream (into_map_codec / into_map_io / into_parts+from_parts); items (frames and decode errors, decoding goes on behind an error) compared one by one with the same codec applied to the undivided stream (BytesCodec: concatenation), a stateful partner codec yields an end-of-stream frame from the empty buffer, another consumes its length header eagerly (returning Ok(None) while consuming); the Sink face may be flushed/closed between reads; whenever the stream returns Pending or the injected I/O error, every item complete in the bytes read before has been yielded; non-trivial = >=2 items and >=1 Pending read; distinct = distinct event-trace hash".into()
             } else {
                 "item sequences (<=12 items, sizes 0,1,17,LW-1,LW,LW+1,3000,4242 (refused by the length-prefixed encoders: a fallible encoder),HW-1,HW,HW+1,3HW) and transport scripts (accept k bytes / runs of 20-40 small accepts / Pending / zero / error / EINTR; flush and shutdown Ok / Pending / error) and, in a quarter of the runs, rebuilds of the Framed (replace_codec / into_map_codec / into_map_io / into_parts+from_parts, which carry both buffers along) interleaved with poll_ready / start_send / poll_flush / poll_close under strict-wake; byte ledger and result invariants after every call; non-trivial = >=1 item accepted and a flush or close succeeded; distinct = distinct event-trace hash".into()
             },
@@ -1167,7 +1241,7 @@ impl Engine for IoSim {
     }
     fn required_probes(prop: &str, _tier: Tier) -> Vec<&'static str> {
         if prop == "C13" {
-            vec!["probe.pending_returned", "probe.end_reached", "probe.io_error_surfaced", "probe.frame_larger_than_hw", "probe.items_behind_decode_error", "probe.io_error_after_decode_error", "probe.eof_frame_from_empty_buffer", "probe.rebuilt_mid_stream", "probe.read_buffer_preloaded"]
+            vec!["probe.pending_returned", "probe.end_reached", "probe.io_error_surfaced", "probe.frame_larger_than_hw", "probe.items_behind_decode_error", "probe.io_error_after_decode_error", "probe.eof_frame_from_empty_buffer", "probe.rebuilt_mid_stream", "probe.read_buffer_preloaded", "probe.sink_polled_between_reads"]
         } else {
             vec!["probe.partial_progress", "probe.sink_pending", "probe.close_ok", "probe.write_zero_reported", "probe.ready_after_flush", "probe.interrupted_reported", "probe.more_than_16_writes_in_one_call", "probe.rebuilt_with_bytes_buffered", "probe.item_refused_with_bytes_buffered"]
         }
